@@ -296,3 +296,89 @@ def check_positions_not_fancy_indexed_raw(
                    'array, numpy refuses it as an index, and a valid '
                    'taxonomy with a single-child parent cannot be mapped')
     return n
+
+
+def _selection_atoms(term):
+    """what a selection is computed from: the dataset reads (the innermost
+    string key of every subscript chain with one), else the parameters"""
+    reads = set()
+    params = set()
+
+    def walk(t):
+        if isinstance(t, frozenset):
+            for x in t:
+                walk(x)
+            return
+        if not isinstance(t, tuple) or not t:
+            return
+        if t[0] == 'sub' and len(t) == 3 and isinstance(t[2], tuple) \
+                and t[2] and t[2][0] == 'const' and isinstance(
+                    t[2][1], str) and t[2][1][:1] in ('"', "'"):
+            reads.add(t[2][1].strip('\'"'))
+        if t[0] == 'param' and len(t) == 2 and t[1] not in ('self', 'cls'):
+            params.add(t[1])
+        for x in (t[1:] if isinstance(t[0], str) else t):
+            if isinstance(x, (tuple, frozenset)):
+                walk(x)
+    walk(term)
+    return reads, params
+
+
+def check_columns_and_names_selected_together(
+        ctx, fi, rule='R-ROLE/columns-and-names-together'):
+    """a matrix object is built from `data=M[:, I]` and a list of gene
+    names N: column k of the data is gene N[k] only if I and N are two
+    views of one selection -- they are computed from a common dataset read
+    (or, where no file is involved, a common parameter).  Positions looked
+    up in one table and names taken through another label the columns with
+    the wrong genes, and no name comparison downstream can notice."""
+    from ..core.cfg import cfg_of
+    from ..core.defuse import rd_of, Expander
+    cfg = cfg_of(fi)
+    rd = rd_of(fi)
+    ex = None
+    n = 0
+    for node in cfg.nodes:
+        if node.id not in rd.live:
+            continue
+        for c in cfg.calls_in(node):
+            nm = getattr(c.func, 'id', getattr(c.func, 'attr', None))
+            if nm != 'CellByGeneMatrix':
+                continue
+            kw = {k.arg: k.value for k in c.keywords if k.arg}
+            d, g = kw.get('data'), kw.get('gene_identifiers')
+            if d is None or g is None:
+                continue
+            if ex is None:
+                ex = Expander(fi)
+            td = ex.expand(d, node.id)
+            # data = M[:, I], directly or through a local
+            if not (isinstance(td, tuple) and td and td[0] == 'sub'
+                    and isinstance(td[2], tuple) and td[2]
+                    and td[2][0] == 'tuple' and len(td[2][1]) == 2
+                    and td[2][1][0][0] == 'slice'
+                    and td[2][1][1][0] != 'slice'):
+                continue
+            ti = td[2][1][1]
+            col = d.slice.elts[1] if isinstance(d, ast.Subscript) \
+                and isinstance(d.slice, ast.Tuple) else d
+            tn = ex.expand(g, node.id)
+            ri, pi_ = _selection_atoms(ti)
+            rn, pn = _selection_atoms(tn)
+            n += 1
+            if ri or rn:
+                ok = bool(ri & rn)
+                what = (f'positions from {sorted(ri) or "no dataset"}, '
+                        f'names from {sorted(rn) or "no dataset"}')
+            else:
+                ok = bool(pi_ & pn) or not (pi_ and pn)
+                what = (f'positions from {sorted(pi_)}, names from '
+                        f'{sorted(pn)}')
+            ctx.touch(fi)
+            ctx.ob(rule, f'{fi.qual}:CellByGeneMatrix#{n - 1}', fi.loc(c),
+                   ok, 'columns and names come from one selection' if ok
+                   else f'the columns are gathered by `{unparse(col)[:40]}` '
+                   f'and labelled with `{unparse(g)[:40]}` ({what}): '
+                   'nothing ties position k of the one to element k of the '
+                   'other, so a column can carry the name of another gene')
+    return n
